@@ -470,7 +470,21 @@ def _resolve_field_reference(field_reference, source_file_name, errors, ir):
                 )
             )
             return
+        # Virtual fields that merely rename another field are followed to the field
+        # they rename.  A renaming that leads back to itself (`let g = f.g`, where
+        # `f` has the enclosing structure as its type) names no field at all.
+        visited_fields = []
         while ir_util.field_is_virtual(previous_field):
+            if any(previous_field is visited for visited in visited_fields):
+                errors.append(
+                    noncomposite_subfield_error(
+                        source_file_name,
+                        previous_reference.source_location,
+                        previous_reference.source_name[0].text,
+                    )
+                )
+                return
+            visited_fields.append(previous_field)
             if previous_field.read_transform.which_expression == "field_reference":
                 # Pass a separate error list into the recursive _resolve_field_reference
                 # call so that only one copy of the error for a particular reference
